@@ -24,7 +24,7 @@ const rule = "real CLI on SQLite files. migrate apply: directories of 1-3 files 
 	"x tx-mode {file, all, none} x per-file atlas:txmode directives x optional count argument; directories with 1-3 checkpoint files (a fresh database starts at the last one) with a failure at every position from there on; every configuration also with --dry-run. " +
 	"schema apply: populated tables and desired schemas whose plan succeeds on an early statement and fails on the data later (unique index over duplicates, NOT NULL over NULLs), with --auto-approve and with --dry-run. " +
 	"Oracle (independent connection; journal rows in order, revision rows version/applied/total/error, schema objects; timestamps and hashes masked): file mode = state after the last completely applied file; all mode = state before the command; " +
-	"none mode = exactly the successful prefix recorded with the error; after fixing the file and re-hashing the re-run reaches the state of a failure-free run; schema apply failure and every --dry-run leave the full data dump unchanged. " +
+	"none mode = exactly the successful prefix recorded with the error; after fixing the file and re-hashing the re-run reaches the state of a failure-free run (also with two failing statements in one file, repaired one at a time: the re-run in between stops at the second one exactly as a first run would); schema apply failure and every --dry-run leave the full data dump unchanged. " +
 	"non-trivial = the injected failure fired with >=1 statement before it (or a dry-run / schema-apply scenario); distinct key = (shape, position, mode, directives, count, dry-run)"
 
 func enumerate(thorough bool, f func(Case) bool) {
@@ -52,6 +52,14 @@ func enumerate(thorough bool, f func(Case) bool) {
 						}
 						if !f(Case{Shape: sh, FailF: p[0], FailJ: p[1], Mode: mode, Count: cnt, DryRun: dry}) {
 							return
+						}
+						// a second failing statement further down the same file, repaired one at a time
+						if !dry && p[0] >= 0 && cnt == 0 {
+							for j2 := p[1] + 1; j2 < sh[p[0]]; j2++ {
+								if !f(Case{Shape: sh, FailF: p[0], FailJ: p[1], Fail2J: j2, Mode: mode}) {
+									return
+								}
+							}
 						}
 						// the same position failing on a foreign-key violation (enforcement on)
 						if !dry && p[0] >= 0 && (p[0] > 0 || p[1] > 0) && !f(Case{Shape: sh, FailF: p[0], FailJ: p[1], Mode: mode, Count: cnt, FailKind: 1}) {
@@ -143,6 +151,9 @@ func genCase(t *rapid.T) Case {
 	}
 	c.Count = rapid.SampledFrom([]int{0, 0, 1, 2}).Draw(t, "count")
 	c.DryRun = rapid.IntRange(0, 4).Draw(t, "dry") == 0
+	if c.FailF >= 0 && c.FailJ+1 < c.Shape[c.FailF] && c.Count == 0 && !c.DryRun && rapid.IntRange(0, 2).Draw(t, "second") == 0 {
+		c.Fail2J = rapid.IntRange(c.FailJ+1, c.Shape[c.FailF]-1).Draw(t, "fj2")
+	}
 	return c
 }
 
@@ -157,6 +168,9 @@ func TestCheck(t *testing.T) {
 			if c.FailKind == 1 {
 				cls += "/foreign-key-violation"
 			}
+			if c.Fail2J > 0 {
+				cls += "/two-failing-statements-in-one-file"
+			}
 			if len(c.Ckpt) > 0 {
 				cls += fmt.Sprintf("/checkpoints=%d", len(c.Ckpt))
 			}
@@ -166,7 +180,7 @@ func TestCheck(t *testing.T) {
 		}
 		col.Class(cls)
 		if out.Fired || c.DryRun || c.Schema {
-			col.NonTrivial(fmt.Sprintf("%v|%d.%d|%s|%v|%d|%v|%v.%d|%d|%v", c.Shape, c.FailF, c.FailJ, c.Mode, c.Directives, c.Count, c.DryRun, c.Schema, c.Variant, c.FailKind, c.Ckpt))
+			col.NonTrivial(fmt.Sprintf("%v|%d.%d|%s|%v|%d|%v|%v.%d|%d|%v|%d", c.Shape, c.FailF, c.FailJ, c.Mode, c.Directives, c.Count, c.DryRun, c.Schema, c.Variant, c.FailKind, c.Ckpt, c.Fail2J))
 		}
 		col.Sample(cls, c)
 		return err
